@@ -290,6 +290,11 @@ pub fn parse_log(text: &str) -> (bool, Vec<LogLine>) {
 /// Runs the binary on a world under a fault plan. Everything observable is
 /// returned; scratch-root prefixes in stderr are normalised to `<ROOT>`.
 pub fn run_world(world: &World, plan: &[Rule]) -> RunOut {
+    run_world_opt(world, plan, None)
+}
+
+/// With `strace_out`, the binary runs under `strace -f -o <file>` as an independent witness of its system calls.
+pub fn run_world_opt(world: &World, plan: &[Rule], strace_out: Option<&Path>) -> RunOut {
     let base = scratch_base();
     let root = materialise(world);
     let plan_path = base.join("plan");
@@ -300,8 +305,15 @@ pub fn run_world(world: &World, plan: &[Rule]) -> RunOut {
     let _ = std::fs::remove_file(&log_path);
     let plan_text: String = plan.iter().map(Rule::line).collect();
     std::fs::write(&plan_path, plan_text).expect("harness: cannot write plan");
-    let mut cmd = Command::new(CLI_BIN);
     let root_s = root.to_string_lossy().to_string();
+    let mut cmd = match strace_out {
+        None => Command::new(CLI_BIN),
+        Some(p) => {
+            let mut c = Command::new("strace");
+            c.args(["-f", "-s", "0", "-o"]).arg(p).args(["-e", "trace=open,openat,creat,read,pread64,readv,write,pwrite64,writev,stat,lstat,newfstatat,statx", "--", CLI_BIN]);
+            c
+        }
+    };
     cmd.args(world.argv.iter().map(|a| a.replace("<ROOT>", &root_s)));
     cmd.current_dir(&root);
     cmd.env_clear();
